@@ -125,18 +125,26 @@ pub mod atomic {
                     yield_point();
                     self.0.compare_exchange_weak(current, new, success, failure)
                 }
-                /// See the std atomic (one scheduling point: a single read-modify-write).
+                /// See the std atomic. Written out the way std implements it - a load and a
+                /// compare-exchange loop, each a scheduling point - so that the closure can be
+                /// called more than once when another thread gets in between, as it can in std.
                 pub fn fetch_update<F>(
                     &self,
                     set_order: Ordering,
                     fetch_order: Ordering,
-                    f: F,
+                    mut f: F,
                 ) -> Result<$int, $int>
                 where
                     F: FnMut($int) -> Option<$int>,
                 {
-                    yield_point();
-                    self.0.fetch_update(set_order, fetch_order, f)
+                    let mut prev = self.load(fetch_order);
+                    while let Some(next) = f(prev) {
+                        match self.compare_exchange_weak(prev, next, set_order, fetch_order) {
+                            x @ Ok(_) => return x,
+                            Err(next_prev) => prev = next_prev,
+                        }
+                    }
+                    Err(prev)
                 }
             }
         };
